@@ -382,15 +382,16 @@ class Answer:
         return "<%s %s %.1fs>" % (self.solver, self.status, self.wall)
 
 
-def run_solver(name, path, timeout, mem_gb=6):
-    """Run one solver binary on one file. status in sat|unsat|unknown|timeout|error."""
+def run_solver(name, path, timeout, mem_gb=6, extra_args=(), on_start=None, label=None):
+    """Run one solver binary on one file. status in sat|unsat|unknown|timeout|error|killed."""
     s = SOLVERS[name]
-    cmd = [s["bin"]] + s["args"]
+    cmd = [s["bin"]] + s["args"] + list(extra_args)
     if name == "cvc5":
         cmd += ["--tlimit=%d" % int(timeout * 1000)]
     else:
         cmd += ["-T:%d" % int(timeout)]
     cmd.append(path)
+    label = label or name
 
     def lim():
         import resource
@@ -402,22 +403,23 @@ def run_solver(name, path, timeout, mem_gb=6):
     try:
         p = subprocess.Popen(cmd, stdout=subprocess.PIPE, stderr=subprocess.STDOUT, text=True, preexec_fn=lim)
     except OSError as e:
-        return Answer(name, "error", 0.0, raw=str(e), path=path)
+        return Answer(label, "error", 0.0, raw=str(e), path=path)
+    if on_start:
+        on_start(p)
     try:
         out, _ = p.communicate(timeout=timeout + 15)
     except subprocess.TimeoutExpired:
-        try:
-            os.killpg(p.pid, signal.SIGKILL)
-        except OSError:
-            pass
+        kill_proc(p)
         out, _ = p.communicate()
-        return Answer(name, "timeout", time.time() - t0, raw=(out or "")[-2000:], path=path)
+        return Answer(label, "timeout", time.time() - t0, raw=(out or "")[-2000:], path=path)
     wall = time.time() - t0
+    if getattr(p, "killed_by_us", False):
+        return Answer(label, "killed", wall, raw="", path=path)
     if "(error" in out or "Error" in out.split("\n", 1)[0]:
         # cvc5 prints "cvc5 interrupted by timeout." / z3 prints "timeout" for the limits above
         if re.search(r"interrupted by timeout|^timeout", out, re.M) and "(error" not in out:
-            return Answer(name, "timeout", wall, raw=out[-2000:], path=path)
-        return Answer(name, "error", wall, raw=out[-2000:], path=path)
+            return Answer(label, "timeout", wall, raw=out[-2000:], path=path)
+        return Answer(label, "error", wall, raw=out[-2000:], path=path)
     first = ""
     for ln in out.split("\n"):
         ln = ln.strip()
@@ -425,11 +427,22 @@ def run_solver(name, path, timeout, mem_gb=6):
             first = ln
             break
     if first == "unsat":
-        return Answer(name, "unsat", wall, raw=out[-500:], path=path)
+        return Answer(label, "unsat", wall, raw=out[-500:], path=path)
     if first == "sat":
-        return Answer(name, "sat", wall, model=parse_model(out[out.index("sat") + 3:]), raw=out[-4000:], path=path)
+        return Answer(label, "sat", wall, model=parse_model(out[out.index("sat") + 3:]), raw=out[-4000:], path=path)
     if first == "unknown":
-        return Answer(name, "unknown", wall, raw=out[-2000:], path=path)
+        return Answer(label, "unknown", wall, raw=out[-2000:], path=path)
     if re.search(r"interrupted by timeout|^timeout", out, re.M) or p.returncode in (-9, -14, 137):
-        return Answer(name, "timeout", wall, raw=out[-2000:], path=path)
-    return Answer(name, "error", wall, raw=out[-2000:] or "no output (rc=%s)" % p.returncode, path=path)
+        return Answer(label, "timeout", wall, raw=out[-2000:], path=path)
+    return Answer(label, "error", wall, raw=out[-2000:] or "no output (rc=%s)" % p.returncode, path=path)
+
+
+def kill_proc(p):
+    p.killed_by_us = True
+    try:
+        os.killpg(p.pid, signal.SIGKILL)
+    except OSError:
+        try:
+            p.kill()
+        except OSError:
+            pass
